@@ -391,6 +391,73 @@ def check_mutation_times(ctx, b, a):
     ctx.eq([m[3] for m in a["mutations"]], model.mutation_parents(a), W + ".parents after re-sort")
 
 
+# ================================================================== C07.deep_pedigree
+def enum_pedigree(tier, seed):
+    for G in ([20, 34, 40, 70] if tier == "quick" else [20, 31, 32, 33, 34, 40, 63, 64, 65, 70, 100]):
+        for s1, s2 in ((0, 1), (1, 2), (3, 0)):
+            yield dict(G=G, s1=s1, s2=s2)
+
+
+def run_pedigree(case, ctx):
+    """canonicalise() of two collections that differ only in the row order of the individual table, on a fully
+    inbred pedigree whose descendant-path counts exceed 32 (and 64) bits: the results must be identical."""
+    import tskit
+
+    from ._shapes import deep_pedigree_tables
+
+    a = deep_pedigree_tables(tskit, case["G"], case["s1"])
+    b = deep_pedigree_tables(tskit, case["G"], case["s2"])
+    ctx.nt(True)
+    ctx.check(not a.individuals.equals(b.individuals), "harness", "the two individual orders are the same")
+    for remove in (True, False):
+        ca, cb = a.copy(), b.copy()
+        ca.canonicalise(remove_unreferenced=remove)
+        cb.canonicalise(remove_unreferenced=remove)
+        ca.provenances.clear()
+        cb.provenances.clear()
+        ctx.check(ca.equals(cb), "canonicalise.deep_pedigree",
+                  f"G={case['G']}: canonicalise(remove_unreferenced={remove}) of two individual orders differs")
+        ca.tree_sequence()
+
+
+# ================================================================== C07.large_stack
+def enum_stack(tier, seed):
+    for d in ([255, 256, 300] if tier == "quick" else [255, 256, 257, 300, 1000, 2000]):
+        for where in ("leaf", "root", "two_nodes"):
+            yield dict(d=d, where=where)
+
+
+def run_stack(case, ctx):
+    """Hundreds of mutations stacked on one node at one site (per-node counters beyond 255): parents and
+    times computed by the repair tools against the same oracles as C07.repair_pipeline."""
+    import tskit
+
+    d = case["d"]
+    node = dict(leaf=0, root=2, two_nodes=0)[case["where"]]
+    muts = []
+    for q in range(d):
+        u = node if case["where"] != "two_nodes" or q % 2 == 0 else 1
+        muts.append([0, u, "ACGT"[q % 4], -1, None, ""])
+    if case["where"] == "two_nodes":
+        muts.sort(key=lambda m: m[1])
+    b = dict(L=1.0, nodes=[[1, 0.0, -1, -1, ""], [1, 0.0, -1, -1, ""], [0, 1.0, -1, -1, ""]],
+             edges=[[0.0, 1.0, 2, 0, ""], [0.0, 1.0, 2, 1, ""]], sites=[[0.5, "A", ""]], mutations=muts,
+             individuals=[], populations=[], migrations=[])
+    ctx.nt(True)
+    t = gen.build_tables(b, tskit)
+    t.compute_mutation_parents()
+    exp_par = model.mutation_parents(b)
+    ctx.eq([int(x) for x in t.mutations.parent], exp_par, "compute_mutation_parents (stack)")
+    for m, p_ in zip(b["mutations"], exp_par):
+        m[3] = p_
+    t.compute_mutation_times()
+    t.sort()
+    a = gen.spec_from_tables(t, tskit)
+    check_mutation_times(ctx, b, a)
+    ts = t.tree_sequence()
+    ctx.check(ts.num_mutations == d, "large_stack", "tree sequence lost mutations")
+
+
 # ================================================================== C07.mutation_parents
 @st.composite
 def mutpar_case(draw):
@@ -776,6 +843,10 @@ SUBCHECKS = [
              floors={"perm_edges": 0.15, "perm_mutations": 0.1, "perm_sites": 0.1, "perm_migrations": 0.05,
                      "dup_site_with_mutations": 0.12, "edge_start>0_with_metadata": 0.1, "erase_parents": 0.3,
                      "erase_times": 0.15, "known_mut_times": 0.15, "multi_mut_site": 0.25}),
+    SubCheck("C07.deep_pedigree", run_pedigree, enumerate=enum_pedigree, quick=1, thorough=1, shards=6,
+             rule="fully inbred pedigrees of 20-70 (thorough: up to 100) generations in two individual-table orders"),
+    SubCheck("C07.large_stack", run_stack, enumerate=enum_stack, quick=1, thorough=1, shards=9,
+             rule="255-300 (thorough: up to 2000) mutations stacked at one site on a leaf, on the root, or split over two nodes"),
     SubCheck("C07.mutation_parents", run_mutpar, strategy=mutpar_case, quick=1500, thorough=45000,
              rule="at least one mutation has a mutation above it at its site",
              floors={"parent_on_other_node": 0.1, "parent_on_same_node": 0.15, "parent_after_child": 0.03}),
